@@ -361,3 +361,58 @@ Definition hist_check (h : hist_case) : bool :=
 Definition hist_explain (h : hist_case) : list (nat * list expected) :=
   map (fun p => (fst p, cpa_explain (prefix_case (h_final h) (fst p) (fst (snd p)) (snd (snd p))))) (h_prefix h)
   ++ [(length (k_traces (h_final h)), cpa_explain (h_final h))].
+
+(* ================================================================ WIDE RESULTS: count boundaries on words and samples *)
+(* Hundreds of words / samples built from a few DISTINCT columns: the sample columns and the word columns are given once, the
+   layout of the matrix as run-length lists (distinct column index, repetitions), expanded here.  Observed entries are given
+   with their position (flat word index, sample index); the per-entry spec is applied to the pair of distinct columns found
+   at that position.  (The harness checks, by exact equality, that all entries built from the same pair of columns are
+   identical to the one validated here.) *)
+Record wide_case := {
+  w_kind : ckind;
+  w_prec : prec;
+  w_dims : list nat;                       (* word dimensions; prod = total number of words *)
+  w_scols : list (list Z);                 (* distinct sample columns (n integer values each) *)
+  w_wcols : list (list Z);                 (* distinct word columns *)
+  w_slayout : list (nat * positive);       (* sample j of the trace matrix is distinct column ..., run-length encoded *)
+  w_wlayout : list (nat * positive);       (* word w (C-order flat index) is distinct column ..., run-length encoded *)
+  w_obs_shape : list nat;
+  w_obs : list (nat * nat * fval)          (* (flat word index, sample index, value of that entry of compute()) *)
+}.
+
+Definition wide_entry_ok (c : wide_case) (n : nat) (sidx widx : list nat) (o : nat * nat * fval) : bool :=
+  let '(w, s, v) := o in
+  Nat.ltb w (length widx) && Nat.ltb s (length sidx)
+  && match nth_error (w_scols c) (nth s sidx 0%nat), nth_error (w_wcols c) (nth w widx 0%nat) with
+     | Some x, Some y =>
+         let xq := map (qcz 1) x in
+         match w_kind c with
+         | KDpa => dpa_entry_ok (w_prec c) n (combine xq (map (Z.eqb 1) y)) v
+         | _ => cpa_entry_ok (w_prec c) n (combine xq (map (qcz 1) y)) v
+         end
+     | _, _ => false
+     end.
+
+Definition wide_check (c : wide_case) : bool :=
+  let sidx := expand (w_slayout c) in
+  let widx := expand (w_wlayout c) in
+  let n := match w_scols c with x :: _ => length x | [] => 0%nat end in
+  Nat.ltb 0 n
+  && forallb (fun x => Nat.eqb (length x) n) (w_scols c) && forallb (fun y => Nat.eqb (length y) n) (w_wcols c)
+  && match w_kind c with KDpa => bits_ok (w_wcols c) | _ => true end
+  && Nat.eqb (length widx) (prod (w_dims c))
+  && natlist_eqb (w_obs_shape c) (w_dims c ++ [length sidx])
+  && negb (match w_obs c with [] => true | _ => false end)
+  && forallb (wide_entry_ok c n sidx widx) (w_obs c).
+
+Definition wide_explain (c : wide_case) : list (nat * nat * expected) :=
+  let sidx := expand (w_slayout c) in
+  let widx := expand (w_wlayout c) in
+  map (fun o : nat * nat * fval =>
+         let '(w, s, _) := o in
+         let x := map (qcz 1) (nth (nth s sidx 0%nat) (w_scols c) []) in
+         let y := nth (nth w widx 0%nat) (w_wcols c) [] in
+         (w, s, match w_kind c with
+                | KDpa => EDiff (option_map this (dpa_spec (combine x (map (Z.eqb 1) y))))
+                | _ => ECorr (option_map (fun t : triple => let '(a, b, d) := t in (this a, this b, d.(this))) (pearson_fast (combine x (map (qcz 1) y))))
+                end)) (w_obs c).
